@@ -177,3 +177,239 @@ Section MapFacts.
       + auto.
   Qed.
 End MapFacts.
+
+(* ---------- more on maps: insert / remove / extensionality ---------- *)
+Section MapFacts2.
+  Context {V : Type}.
+  Implicit Types (l : list (key * V)) (k : key) (v : V).
+
+  Lemma map_get_insert k' k v l :
+    map_get k' (map_insert k v l) = if key_eqb k' k then Some v else map_get k' l.
+  Proof.
+    induction l as [|[k1 v1] r IH]; simpl.
+    - destruct (key_eqb k' k); reflexivity.
+    - destruct (cmp_key k k1) eqn:E; simpl.
+      + apply cmp_key_eq in E. subst k1. destruct (key_eqb k' k); reflexivity.
+      + destruct (key_eqb k' k); reflexivity.
+      + rewrite IH. destruct (key_eqb k' k) eqn:E1; [|reflexivity].
+        apply key_eqb_eq in E1. subst k'.
+        unfold key_eqb. rewrite E. reflexivity.
+  Qed.
+
+  Lemma keys_above_insert k0 k v l :
+    cmp_key k0 k = Lt -> keys_above k0 l -> keys_above k0 (map_insert k v l).
+  Proof.
+    intros Hk H. induction H as [|[k1 v1] r H1 Hr IH]; simpl.
+    - constructor; [exact Hk|constructor].
+    - destruct (cmp_key k k1) eqn:E.
+      + constructor; [exact H1|exact Hr].
+      + constructor; [exact Hk|]. constructor; [exact H1|exact Hr].
+      + constructor; [exact H1|exact IH].
+  Qed.
+
+  Lemma keys_sorted_insert k v l : keys_sorted l = true -> keys_sorted (map_insert k v l) = true.
+  Proof.
+    induction l as [|[k1 v1] r IH]; intro Hs; [reflexivity|].
+    apply keys_sorted_cons in Hs. destruct Hs as [Ha Hs].
+    simpl. destruct (cmp_key k k1) eqn:E.
+    - apply keys_sorted_cons. split; assumption.
+    - apply keys_sorted_cons. split.
+      + constructor; [exact E|]. eapply Forall_impl; [|exact Ha].
+        intros [k2 v2] H2. simpl in *. eapply cmp_key_trans; eassumption.
+      + apply keys_sorted_cons. split; assumption.
+    - apply keys_sorted_cons. split; [|apply IH; exact Hs].
+      apply keys_above_insert; [|exact Ha].
+      rewrite cmp_key_opp, E. reflexivity.
+  Qed.
+
+  Lemma keys_sorted_tail kv l : keys_sorted (kv :: l) = true -> keys_sorted l = true.
+  Proof. destruct kv as [k v]. intro H. apply keys_sorted_cons in H. tauto. Qed.
+
+  Lemma map_get_remove k' k l : keys_sorted l = true ->
+    map_get k' (map_remove k l) = if key_eqb k' k then None else map_get k' l.
+  Proof.
+    induction l as [|[k1 v1] r IH]; intro Hs; simpl.
+    - destruct (key_eqb k' k); reflexivity.
+    - apply keys_sorted_cons in Hs. destruct Hs as [Ha Hs].
+      destruct (key_eqb k k1) eqn:E.
+      + apply key_eqb_eq in E. subst k1.
+        destruct (key_eqb k' k) eqn:E1; [|reflexivity].
+        apply key_eqb_eq in E1. subst k'. apply keys_above_get. exact Ha.
+      + simpl. rewrite (IH Hs). destruct (key_eqb k' k) eqn:E1.
+        * apply key_eqb_eq in E1. subst k'. rewrite E. reflexivity.
+        * reflexivity.
+  Qed.
+
+  Lemma keys_above_remove k0 k l : keys_above k0 l -> keys_above k0 (map_remove k l).
+  Proof.
+    induction 1 as [|[k1 v1] r H1 Hr IH]; simpl; [constructor|].
+    destruct (key_eqb k k1); [exact Hr|]. constructor; assumption.
+  Qed.
+
+  Lemma keys_sorted_remove k l : keys_sorted l = true -> keys_sorted (map_remove k l) = true.
+  Proof.
+    induction l as [|[k1 v1] r IH]; intro Hs; [reflexivity|].
+    apply keys_sorted_cons in Hs. destruct Hs as [Ha Hs]. simpl.
+    destruct (key_eqb k k1); [exact Hs|].
+    apply keys_sorted_cons. split; [apply keys_above_remove; exact Ha|apply IH; exact Hs].
+  Qed.
+
+  Lemma map_get_In_sorted k v l : keys_sorted l = true -> (In (k, v) l <-> map_get k l = Some v).
+  Proof. intro Hs. split; [apply sorted_get_In; exact Hs|apply map_get_In]. Qed.
+
+  (* two key-sorted maps with the same lookup function are equal *)
+  Lemma map_ext l l' : keys_sorted l = true -> keys_sorted l' = true ->
+    (forall k, map_get k l = map_get k l') -> l = l'.
+  Proof.
+    revert l'. induction l as [|[k v] r IH]; intros [|[k' v'] r'] Hs Hs' H.
+    - reflexivity.
+    - specialize (H k'). simpl in H. rewrite key_eqb_refl in H. discriminate.
+    - specialize (H k). simpl in H. rewrite key_eqb_refl in H. discriminate.
+    - apply keys_sorted_cons in Hs. destruct Hs as [Ha Hs].
+      apply keys_sorted_cons in Hs'. destruct Hs' as [Ha' Hs'].
+      assert (Hk : k = k').
+      { destruct (cmp_key k k') eqn:E.
+        - apply cmp_key_eq. exact E.
+        - (* k < k' : k is not in l' *)
+          pose proof (H k) as Hk. simpl in Hk. rewrite key_eqb_refl in Hk.
+          unfold key_eqb in Hk at 1. rewrite E in Hk. simpl in Hk.
+          assert (keys_above k r').
+          { eapply Forall_impl; [|exact Ha']. intros [k2 v2] H2. simpl in *. eapply cmp_key_trans; eassumption. }
+          rewrite (keys_above_get _ _ H0) in Hk. discriminate.
+        - pose proof (H k') as Hk. simpl in Hk. rewrite key_eqb_refl in Hk.
+          assert (E' : cmp_key k' k = Lt) by (rewrite cmp_key_opp, E; reflexivity).
+          unfold key_eqb in Hk at 1. rewrite E' in Hk. simpl in Hk.
+          assert (keys_above k' r).
+          { eapply Forall_impl; [|exact Ha]. intros [k2 v2] H2. simpl in *. eapply cmp_key_trans; eassumption. }
+          rewrite (keys_above_get _ _ H0) in Hk. discriminate. }
+      subst k'. pose proof (H k) as Hv. simpl in Hv. rewrite key_eqb_refl in Hv. inversion Hv. subst v'.
+      f_equal. apply IH; try assumption.
+      intro k2. specialize (H k2). simpl in H.
+      destruct (key_eqb k2 k) eqn:E; [|exact H].
+      apply key_eqb_eq in E. subst k2.
+      rewrite (keys_above_get _ _ Ha), (keys_above_get _ _ Ha'). reflexivity.
+  Qed.
+
+  Lemma map_has_get k l : map_has k l = true <-> exists v, map_get k l = Some v.
+  Proof.
+    unfold map_has. destruct (map_get k l) as [v|]; split; intro H; try discriminate; eauto.
+    destruct H as [v H]. discriminate.
+  Qed.
+End MapFacts2.
+
+(* ---------- sorted sets, generic in a total order ---------- *)
+Section SetFacts.
+  Context {A : Type} (cmp : A -> A -> comparison).
+  Hypothesis cmp_eq : forall a b, cmp a b = Eq -> a = b.
+  Hypothesis cmp_refl : forall a, cmp a a = Eq.
+  Hypothesis cmp_opp : forall a b, cmp b a = CompOpp (cmp a b).
+  Hypothesis cmp_trans : forall a b c, cmp a b = Lt -> cmp b c = Lt -> cmp a c = Lt.
+
+  Definition all_above (x : A) (l : list A) : Prop := Forall (fun y => cmp x y = Lt) l.
+
+  Lemma sorted_cons x l : sorted cmp (x :: l) = true <-> all_above x l /\ sorted cmp l = true.
+  Proof.
+    revert x. induction l as [|y r IH]; intro x.
+    - simpl. split; intros; [split; [constructor|reflexivity]|reflexivity].
+    - change (sorted cmp (x :: y :: r)) with (match cmp x y with Lt => sorted cmp (y :: r) | _ => false end).
+      destruct (cmp x y) eqn:E.
+      + split; [discriminate|]. intros [H _]. inversion H. congruence.
+      + split.
+        * intro H. split; [|exact H]. constructor; [exact E|].
+          apply IH in H. destruct H as [H _]. eapply Forall_impl; [|exact H].
+          intros z Hz. eapply cmp_trans; eassumption.
+        * intros [_ H]. exact H.
+      + split; [discriminate|]. intros [H _]. inversion H. congruence.
+  Qed.
+
+  Lemma set_insert_In x y l : In y (set_insert cmp x l) <-> y = x \/ In y l.
+  Proof.
+    induction l as [|z r IH]; simpl.
+    - intuition.
+    - destruct (cmp x z) eqn:E; simpl.
+      + apply cmp_eq in E. subst. intuition.
+      + intuition.
+      + rewrite IH. intuition.
+  Qed.
+
+  Lemma all_above_insert x0 x l : cmp x0 x = Lt -> all_above x0 l -> all_above x0 (set_insert cmp x l).
+  Proof.
+    intros Hx H. unfold all_above in *. apply Forall_forall. intros y Hy. apply set_insert_In in Hy.
+    destruct Hy as [->|Hy]; [exact Hx|]. rewrite Forall_forall in H. auto.
+  Qed.
+
+  Lemma sorted_insert x l : sorted cmp l = true -> sorted cmp (set_insert cmp x l) = true.
+  Proof.
+    induction l as [|y r IH]; intro Hs; [reflexivity|].
+    apply sorted_cons in Hs. destruct Hs as [Ha Hs]. simpl.
+    destruct (cmp x y) eqn:E.
+    - apply sorted_cons. split; assumption.
+    - apply sorted_cons. split.
+      + constructor; [exact E|]. eapply Forall_impl; [|exact Ha]. intros z Hz. eapply cmp_trans; eassumption.
+      + apply sorted_cons. split; assumption.
+    - apply sorted_cons. split; [|apply IH; exact Hs].
+      apply all_above_insert; [|exact Ha]. rewrite cmp_opp, E. reflexivity.
+  Qed.
+
+  Lemma all_above_notin x l : all_above x l -> ~ In x l.
+  Proof.
+    intros H Hin. unfold all_above in H. rewrite Forall_forall in H. specialize (H _ Hin). rewrite cmp_refl in H. discriminate.
+  Qed.
+
+  (* inserting an element that is already there changes nothing *)
+  Lemma set_insert_present x l : sorted cmp l = true -> In x l -> set_insert cmp x l = l.
+  Proof.
+    induction l as [|y r IH]; intros Hs Hin; [contradiction|].
+    apply sorted_cons in Hs. destruct Hs as [Ha Hs]. simpl.
+    destruct Hin as [->|Hin].
+    - rewrite cmp_refl. reflexivity.
+    - destruct (cmp x y) eqn:E.
+      + reflexivity.
+      + exfalso. unfold all_above in Ha. rewrite Forall_forall in Ha. specialize (Ha _ Hin).
+        pose proof (cmp_trans _ _ _ E Ha) as C. rewrite cmp_refl in C. discriminate.
+      + f_equal. apply IH; assumption.
+  Qed.
+
+  (* two sorted lists with the same elements are equal *)
+  Lemma sorted_ext l l' : sorted cmp l = true -> sorted cmp l' = true ->
+    (forall x, In x l <-> In x l') -> l = l'.
+  Proof.
+    revert l'. induction l as [|x r IH]; intros [|y r'] Hs Hs' H.
+    - reflexivity.
+    - exfalso. apply (H y). left. reflexivity.
+    - exfalso. apply (H x). left. reflexivity.
+    - apply sorted_cons in Hs. destruct Hs as [Ha Hs].
+      apply sorted_cons in Hs'. destruct Hs' as [Ha' Hs'].
+      assert (x = y).
+      { destruct (cmp x y) eqn:E.
+        - apply cmp_eq. exact E.
+        - exfalso. assert (Hx : In x (y :: r')) by (apply H; left; reflexivity).
+          destruct Hx as [Hx|Hx]; [subst; rewrite cmp_refl in E; discriminate|].
+          unfold all_above in Ha'. rewrite Forall_forall in Ha'. specialize (Ha' _ Hx).
+          pose proof (cmp_trans _ _ _ E Ha') as C. rewrite cmp_refl in C. discriminate.
+        - exfalso. assert (E' : cmp y x = Lt) by (rewrite cmp_opp, E; reflexivity).
+          assert (Hy : In y (x :: r)) by (apply H; left; reflexivity).
+          destruct Hy as [Hy|Hy]; [subst; rewrite cmp_refl in E; discriminate|].
+          unfold all_above in Ha. rewrite Forall_forall in Ha. specialize (Ha _ Hy).
+          pose proof (cmp_trans _ _ _ E' Ha) as C. rewrite cmp_refl in C. discriminate. }
+      subst y. f_equal. apply IH; try assumption.
+      intro z. split; intro Hz.
+      + assert (Hz' : In z (x :: r')) by (apply H; right; exact Hz).
+        destruct Hz' as [->|Hz']; [|exact Hz']. exfalso. exact (all_above_notin _ _ Ha Hz).
+      + assert (Hz' : In z (x :: r)) by (apply H; right; exact Hz).
+        destruct Hz' as [->|Hz']; [|exact Hz']. exfalso. exact (all_above_notin _ _ Ha' Hz).
+  Qed.
+
+  Lemma sorted_union l extra : sorted cmp l = true -> sorted cmp (set_union cmp l extra) = true.
+  Proof.
+    unfold set_union. revert l. induction extra as [|x r IH]; intros l Hs; simpl; [exact Hs|].
+    apply IH. apply sorted_insert. exact Hs.
+  Qed.
+
+  Lemma set_union_In y l extra : In y (set_union cmp l extra) <-> In y l \/ In y extra.
+  Proof.
+    unfold set_union. revert l. induction extra as [|x r IH]; intro l; simpl.
+    - intuition.
+    - rewrite IH, set_insert_In. intuition.
+  Qed.
+End SetFacts.
